@@ -13,6 +13,16 @@ pub uninterp spec fn service_chan<S>() -> int;           // the mailbox of the c
 impl<A: Actor> Context<A> {
     // context.rs Context::weak_sender (proved in unit ctx)
     #[verifier::external_body] pub fn weak_sender<M: Message<Response = ()>>(&self) -> (r: WeakSender<M>) where A: Handler<M> { unimplemented!() }
+    pub uninterp spec fn chan(&self) -> int;
+    // context.rs Context::stop / Context::restart (proved in unit ctx): a Stop (-1) / Restart (-2) request on the context's own queue, through the forcing path
+    #[verifier::external_body]
+    pub fn stop(&self, Tracked(w): Tracked<&mut World>) -> (r: Result<(), ActorError>)
+        ensures r is Ok ==> final(w).trace == old(w).trace.push(Ev::Enq { chan: self.chan(), pid: -1, force: true }), r is Err ==> final(w).trace == old(w).trace
+    { unimplemented!() }
+    #[verifier::external_body]
+    pub fn restart(&self, Tracked(w): Tracked<&mut World>) -> (r: Result<(), ActorError>)
+        ensures r is Ok ==> final(w).trace == old(w).trace.push(Ev::Enq { chan: self.chan(), pid: -2, force: true }), r is Err ==> final(w).trace == old(w).trace
+    { unimplemented!() }
 }
 #[verifier::external_body] #[verifier::accept_recursive_types(A)] pub struct Addr<A> { p: core::marker::PhantomData<A> }
 pub uninterp spec fn mid_of<M>(m: &M) -> int;
@@ -37,12 +47,19 @@ impl<M> OwnView for WeakSender<M> { open spec fn own(&self) -> Own { Own { none:
 impl<M> OwnView for Sender<M> { open spec fn own(&self) -> Own { Own { none: false, chan: self.chan(), s_tx: true, s_force: true, w_tx: false, w_force: false, mixed: false } } }
 impl<M> WeakSenderRest<M> { pub uninterp spec fn chan(&self) -> int; }
 impl<M> WeakSender<M> { pub open spec fn chan(&self) -> int { self.rest.chan() } }
+// weak_sender.rs `impl Clone for WeakSender` (proved in unit h_sender: weak, same actor)
+impl<M> Clone for WeakSender<M> { #[verifier::external_body] fn clone(&self) -> (r: Self) ensures r == *self { unimplemented!() } }
 impl<M> Sender<M> {
     pub uninterp spec fn chan(&self) -> int;
     // sender.rs Sender::send (contract proved in unit h_sender)
     #[verifier::external_body]
     pub fn send(&self, msg: M, Tracked(w): Tracked<&mut World>) -> (r: Result<(), ActorError>)
         ensures one_submit(old(w), final(w), self.chan(), mid_of(&msg), false, r is Ok)
+    { unimplemented!() }
+    // sender.rs Sender::force_send (contract proved in unit h_sender): the same through the forcing path (never waits for mailbox space)
+    #[verifier::external_body]
+    pub fn force_send(&self, msg: M, Tracked(w): Tracked<&mut World>) -> (r: Result<(), ActorError>)
+        ensures one_submit(old(w), final(w), self.chan(), mid_of(&msg), true, r is Ok)
     { unimplemented!() }
 }
 // `msg.0.clone()` of a topic value: a copy with the same ghost identity (the same publication)
